@@ -435,3 +435,22 @@ Fixpoint dispatch_inplace_from (idx : list nat) (arr cur : list Z) (acts : nat -
 Definition dispatch_inplace (ls : list Z) (acts : nat -> list mact) : list Z * list Z :=
   dispatch_inplace_from (seq 0 (length ls)) ls ls acts [].
 
+(* ---------------------------------------------------------------- a join that overlaps events *)
+(* Registry.Monitor on a watched key: the known values (a snapshot of watchValue.values) are
+   replayed to the joining listener, one OnAdd per key, while the watch goroutine may handle
+   events.  A schedule lists, in the order in which they happen, the replay calls and the events
+   handled meanwhile. *)
+Inductive jstep := JReplay (k v : Z) | JEvent (b : bev).
+
+(* the joiner is in watcher.listeners before the snapshot is taken (attach, then replay):
+   it is called for the events as well *)
+Definition jcalls_attached (sched : list jstep) : list lev :=
+  map (fun s => match s with JReplay k v => LAdd k v | JEvent b => blev b end) sched.
+
+(* the joiner is attached after the replay (replay, then attach - seeded change C13-6): the
+   events handled during the replay reach only the other listeners *)
+Definition jcalls_detached (sched : list jstep) : list lev :=
+  flat_map (fun s => match s with JReplay k v => [LAdd k v] | JEvent _ => [] end) sched.
+
+Definition jevents (sched : list jstep) : list bev :=
+  flat_map (fun s => match s with JReplay _ _ => [] | JEvent b => [b] end) sched.
